@@ -122,37 +122,40 @@ def special5 (s : State) : M Bool := do
 def FS.dec (f : FS) (k : Nat) : M FS := do return { f with pos := ← sub f.pos k }
 def FS.folds (f : FS) (k : Nat) : FS := { f with s := { f.s with folds := f.s.folds + k } }
 
-/-- one iteration of the main `for` loop of `fold` -/
-def foldBody (f : FS) : M Step := do
-  -- 5-token special cases
-  let f ← (if f.pos ≥ maxTokens then do
-      if ← special5 f.s then
-        if f.pos > maxTokens then
-          let s ← tvSet f.s 1 (← tvGet f.s 5)
-          pure { f with s := s, pos := 2, left := 0 }
-        else pure { f with pos := 1, left := 0 }
-      else pure f
-    else pure f)
-  if !f.more || f.left ≥ maxTokens then return .brk { f with left := f.pos }
-  let f ← fetch f 2 (f.s.input.length + 4)
-  if f.pos - f.left < 2 then return .cont { f with left := f.pos }
+/-- the 5-token special cases at the top of the loop -/
+def foldSpecial (f : FS) : M FS := do
+  if f.pos ≥ maxTokens then
+    if ← special5 f.s then
+      if f.pos > maxTokens then
+        let s ← tvSet f.s 1 (← tvGet f.s 5)
+        pure { f with s := s, pos := 2, left := 0 }
+      else pure { f with pos := 1, left := 0 }
+    else pure f
+  else pure f
+
+/-- outcome of the two-token stage: a rule fired and the iteration is over, or control falls
+through to the three-token stage (no rule matched, or the `LIKE (` / `COLLATE n_` cases, which
+re-categorise a token and break out of the switch) -/
+inductive Two | done (s : Step) | next (f : FS)
+
+/-- the two-token rules, in source order (`left + 1 < pos`) -/
+def foldTwo (f : FS) : M Two := do
   let left := f.left
   let a ← tvGet f.s left
   let b ← tvGet f.s (left + 1)
   let bUnary ← b.isUnaryOp
-  -- two-token rules, in source order
-  if a.cat == 115 && b.cat == 115 then return .cont ((← f.dec 1).folds 1)
-  if a.cat == 59 && b.cat == 59 then return .cont ((← f.dec 1).folds 1)
+  if a.cat == 115 && b.cat == 115 then return .done (.cont ((← f.dec 1).folds 1))
+  if a.cat == 59 && b.cat == 59 then return .done (.cont ((← f.dec 1).folds 1))
   if (a.cat == 111 || a.cat == 38) && (bUnary || b.cat == 116) then
-    return .cont { (← f.dec 1).folds 1 with left := 0 }
+    return .done (.cont { (← f.dec 1).folds 1 with left := 0 })
   if a.cat == 40 && bUnary then
     let f := (← f.dec 1).folds 1
-    return .cont { f with left := if f.left > 0 then f.left - 1 else f.left }
+    return .done (.cont { f with left := if f.left > 0 then f.left - 1 else f.left })
   match ← merge a b with
   | some a' =>
     let s ← tvSet f.s left a'
     let f := (← FS.dec { f with s := s } 1).folds 1
-    return .cont { f with left := if f.left > 0 then f.left - 1 else f.left }
+    return .done (.cont { f with left := if f.left > 0 then f.left - 1 else f.left })
   | none =>
   let isIF ← (if a.cat == 59 && b.cat == 102 then do
       let v0 ← at' b.val 0
@@ -163,52 +166,45 @@ def foldBody (f : FS) : M Step := do
     else pure false)
   if isIF then
     let s ← tvSet f.s (left + 1) { b with cat := 84 }
-    return .cont { f with s := s }
+    return .done (.cont { f with s := s })
   let av ← valOf a
   if (a.cat == 110 || a.cat == 118) && b.cat == 40 && funcNames.any (fun n => toUpperCmp n av) then
     let s ← tvSet f.s left { a with cat := 102 }
-    return .cont { f with s := s }
+    return .done (.cont { f with s := s })
   if a.cat == 107 && (toUpperCmp (bs "IN") av || toUpperCmp (bs "NOT IN") av) then
     let s ← tvSet f.s left { a with cat := if b.cat == 40 then 111 else 110 }
-    return .cont { f with s := s }
-  -- LIKE: falls through to the three-token part
-  let (f, a, handled) ← (
-    if a.cat == 111 && (toUpperCmp (bs "LIKE") av || toUpperCmp (bs "NOT LIKE") av) then do
-      if b.cat == 40 then
-        let a' := { a with cat := 102 }
-        pure ({ f with s := ← tvSet f.s left a' }, a', true)
-      else pure (f, a, true)
-    else pure (f, a, false))
-  if !handled then
-    if a.cat == 116 && (b.cat == 110 || b.cat == 49 || b.cat == 116 || b.cat == 40 || b.cat == 102 || b.cat == 118 || b.cat == 115) then
+    return .done (.cont { f with s := s })
+  -- LIKE: re-categorise and fall through to the three-token stage
+  if a.cat == 111 && (toUpperCmp (bs "LIKE") av || toUpperCmp (bs "NOT LIKE") av) then
+    if b.cat == 40 then return .next { f with s := ← tvSet f.s left { a with cat := 102 } }
+    else return .next f
+  if a.cat == 116 && (b.cat == 110 || b.cat == 49 || b.cat == 116 || b.cat == 40 || b.cat == 102 || b.cat == 118 || b.cat == 115) then
+    let s ← tvSet f.s left b
+    return .done (.cont { (← FS.dec { f with s := s } 1).folds 1 with left := 0 })
+  -- collate: re-categorise and fall through
+  if a.cat == 65 && b.cat == 110 then
+    if (indexByte b.val 95).isSome then
+      return .next { f with s := ← tvSet f.s (left + 1) { b with cat := 116 }, left := 0 }
+    else return .next f
+  if a.cat == 92 then
+    if ← b.isArithmeticOp then
+      let s ← tvSet f.s left { a with cat := 49 }
+      return .done (.cont { f with s := s, left := 0 })
+    else
       let s ← tvSet f.s left b
-      return .cont { (← FS.dec { f with s := s } 1).folds 1 with left := 0 }
-  -- collate: falls through
-  let (f, handled) ← (
-    if !handled && a.cat == 65 && b.cat == 110 then do
-      if (indexByte b.val 95).isSome then
-        pure ({ f with s := ← tvSet f.s (left + 1) { b with cat := 116 }, left := 0 }, true)
-      else pure (f, true)
-    else pure (f, handled))
-  if !handled then
-    if a.cat == 92 then
-      if ← b.isArithmeticOp then
-        let s ← tvSet f.s left { a with cat := 49 }
-        return .cont { f with s := s, left := 0 }
-      else
-        let s ← tvSet f.s left b
-        return .cont { (← FS.dec { f with s := s } 1).folds 1 with left := 0 }
-    if a.cat == 40 && b.cat == 40 then return .cont { (← f.dec 1).folds 1 with left := 0 }
-    if a.cat == 41 && b.cat == 41 then return .cont { (← f.dec 1).folds 1 with left := 0 }
-    if a.cat == 123 && b.cat == 110 then
-      if b.len == 0 then
-        let s ← tvSet f.s (left + 1) { b with cat := 88 }
-        return .ret (left + 2) { f with s := s }
-      return .cont { (← f.dec 2).folds 2 with left := 0 }
-    if b.cat == 125 then return .cont { (← f.dec 1).folds 1 with left := 0 }
-  -- three tokens
-  let f ← fetch f 3 (f.s.input.length + 4)
-  if f.pos - f.left < 3 then return .cont { f with left := f.pos }
+      return .done (.cont { (← FS.dec { f with s := s } 1).folds 1 with left := 0 })
+  if a.cat == 40 && b.cat == 40 then return .done (.cont { (← f.dec 1).folds 1 with left := 0 })
+  if a.cat == 41 && b.cat == 41 then return .done (.cont { (← f.dec 1).folds 1 with left := 0 })
+  if a.cat == 123 && b.cat == 110 then
+    if b.len == 0 then
+      let s ← tvSet f.s (left + 1) { b with cat := 88 }
+      return .done (.ret (left + 2) { f with s := s })
+    return .done (.cont { (← f.dec 2).folds 2 with left := 0 })
+  if b.cat == 125 then return .done (.cont { (← f.dec 1).folds 1 with left := 0 })
+  return .next f
+
+/-- the three-token rules (`left + 2 < pos`) -/
+def foldThree (f : FS) : M Step := do
   let left := f.left
   let a ← tvGet f.s left
   let b ← tvGet f.s (left + 1)
@@ -250,6 +246,22 @@ def foldBody (f : FS) : M Step := do
       else pure f
     else pure f)
   return .cont { f with left := f.left + 1 }
+
+/-- fuel of the token-fetching loops inside one iteration -/
+def fetchFuel (n : Nat) : Nat := n + 4
+
+/-- one iteration of the main `for` loop of `fold` -/
+def foldBody (f : FS) : M Step := do
+  let f ← foldSpecial f
+  if !f.more || f.left ≥ maxTokens then return .brk { f with left := f.pos }
+  let f ← fetch f 2 (fetchFuel f.s.input.length)
+  if f.pos - f.left < 2 then return .cont { f with left := f.pos }
+  match ← foldTwo f with
+  | .done st => return st
+  | .next f =>
+    let f ← fetch f 3 (fetchFuel f.s.input.length)
+    if f.pos - f.left < 3 then return .cont { f with left := f.pos }
+    foldThree f
 
 def foldLoop (f : FS) : Nat → M (Nat × FS)
   | 0 => .error .fuel
